@@ -9,6 +9,7 @@ import (
 	"encoding/binary"
 	"encoding/json"
 	"fmt"
+	"github.com/advancedclimatesystems/gonnx/verifsim"
 	"hash/crc32"
 	"hash/fnv"
 	"math"
@@ -201,17 +202,17 @@ var shapesByRank = [][][]int{
 
 type gen struct {
 	envNames []string
-	cfg   Config
-	st    *evid.Stats
-	env   *Env
-	idx   int64
-	seen  map[uint64]bool
-	stop  bool
-	vcap  int
-	check func(*Case, *Env) []verdict
-	recent []*Case // the last few cases this process executed (prelude of a recorded violation)
-	seq     int64
-	journal *os.File
+	cfg      Config
+	st       *evid.Stats
+	env      *Env
+	idx      int64
+	seen     map[uint64]bool
+	stop     bool
+	vcap     int
+	check    func(*Case, *Env) []verdict
+	recent   []*Case // the last few cases this process executed (prelude of a recorded violation)
+	seq      int64
+	journal  *os.File
 }
 
 func (g *gen) mine() bool {
@@ -260,6 +261,11 @@ func (g *gen) run(c *Case, nontrivial bool) {
 	if c.Env == nil && len(g.envNames) > 0 {
 		if c.Env = evid.DrawEnv(g.envNames, rng.Mix(g.cfg.Seed, uint64(seq)*31+uint64(g.cfg.W))); c.Env != nil {
 			g.st.Fault("environment-variable-set")
+		}
+	}
+	if c.Clock == nil && verifsim.ClockSites > 0 {
+		if c.Clock = evid.DrawClock(rng.Mix(g.cfg.Seed, uint64(seq)*37+uint64(g.cfg.W)+1)); c.Clock != nil {
+			g.st.Fault("clock-jump")
 		}
 	}
 	vs := g.check(c, g.env)
